@@ -425,6 +425,8 @@ def judge_churn(scn):
             del cfg_it[str(xb)]          # this configuration does not know bit xb
         out = decode.run_reader(image2, "IpmReader", False, enc=enc, cfg=cfg_it)
         want_error = bool(it % 2)
+        if out.kind in ("budget", "foreign"):
+            break        # non-termination / foreign exceptions are C07's ground; nothing for the churn oracle
         ok = (out.kind == "liberr" and out.recno == 1) if want_error else (out.kind == "stop" and len(out.items) == 1)
         if not ok and not fails:
             fails.append({"oracle": "C10.bad_record_is_reported" if want_error else "C10.control.clean_file_reads_back",
